@@ -386,6 +386,23 @@ func c05(r *Report) {
 
 	r.Guard("C05.R3", "the session's connection follows the TLS upgrade (a hijacker gets the decrypted connection)", func() {
 		sessionConnIsServedConnRule(r)
+		// the shaped connection wraps the accepted connection itself: handle recognises a TLS tunnel
+		// by GetWrappedConn().(*tls.Conn), which another wrapper in between defeats
+		if gt := r.W.Fn("trafficshape", "Listener.GetTrafficShapedConn"); gt != nil && gt.Blocks != nil && len(gt.Params) > 1 {
+			r.Touch(gt)
+			nc, direct := 0, true
+			for _, a := range allocsOf(gt, M+"/trafficshape.Conn") {
+				for _, st := range litFieldStores(a)["conn"] {
+					nc++
+					for _, l := range resolveAll(st.Val) {
+						if !isParamVal(l, gt.Params[1]) {
+							direct = false
+						}
+					}
+				}
+			}
+			r.Decide("flow", "(*M/trafficshape.Listener).GetTrafficShapedConn wraps the connection it is given", nc >= 1 && direct, "Conn.conn is the parameter", "the shaped connection wraps another wrapper around the accepted connection: handle no longer finds the *tls.Conn behind it, and every request of a shaped MITM tunnel is served as plain http on an insecure session and forwarded in cleartext", gt.Pos())
+		}
 		// what setConn records is what Hijack and the connection loop hand out: every field
 		// setConn stores is loaded by Hijack and by currentConn, and each of them returns
 		// nothing but those fields
